@@ -32,7 +32,9 @@ ASSUMPTIONS = [
 ]
 
 NSS = [None, {}, {'a': 'urn:a'}, {'a': 'urn:a', 'b': 'urn:b'}, {'b': 'urn:b', 'a': 'urn:a'}, {'': 'urn:d'}, {'a': 'urn:b'}]
-CUSTOMS = [None, {}, {':--x': 'p'}, {':--x': 'p', ':--y': ':--x > b'}, {':--y': ':--x > b', ':--x': 'p'}, {':--x': 'div'}]
+CUSTOMS = [None, {}, {':--x': 'p'}, {':--x': 'p', ':--y': ':--x > b'}, {':--y': ':--x > b', ':--x': 'p'}, {':--x': 'div'},
+           {':--x': 'div', ':--y': ':--x > b'}, {':--x': 'span.k', ':--y': ':--x > b', ':--z': ':is(:--y, :--x)'},
+           {':--x': 'p', ':--y': ':--x > b', ':--z': ':is(:--y, :--x)'}]
 
 
 def plan(tier, seed):
@@ -170,8 +172,9 @@ def run_unit(u):
     def args(rng_):
         pat = gen_pattern(rng_, cfg)
         cu = rng_.choice(CUSTOMS)
-        if cu and rng_.random() < .5:
-            pat = pat + (', :--x' if rng_.random() < .5 else ' :--x')
+        if cu and rng_.random() < .6:
+            name = rng_.choice([k for k in cu])
+            pat = pat + ((', ' + name) if rng_.random() < .5 else (' ' + name))
         return (pat, rng_.choice(NSS), cu, rng_.choice([0, 0, sv.DEBUG]))
 
     def comp(a):
@@ -214,6 +217,7 @@ def run_unit(u):
             if not (cb == c and hash(cb) == hash(c)):
                 viol('compile with equal arguments in another dict order/type is unequal or hashes differently: %r vs %r' % (a, b), a[0], 'eq-equal-args')
             # --- one argument different
+            neighbours = []
             for i in range(1, 4):
                 d = list(a)
                 if i == 1:
@@ -236,6 +240,16 @@ def run_unit(u):
                 if cd.pattern != d[0] or cd.flags != d[3] or got_ns != want_ns or got_cu != want_cu:
                     viol('compile%r returned an object carrying other arguments: namespaces=%r custom=%r flags=%r' % (
                         tuple(d), cd.namespaces, cd.custom, cd.flags), a[0], 'wrong-args:%d' % i)
+                neighbours.append((tuple(d), cd))
+            # what was compiled without a purge in between must equal a fresh parse of the same arguments
+            for dd, cd in neighbours:
+                sv.purge()
+                st3, fr = monitors.guarded_call(comp, dd)
+                if st3 == 'ok':
+                    bump('neighbour_fresh_compared')
+                    if not (fr == cd and hash(fr) == hash(cd)):
+                        viol('compile%r after compile%r (no purge in between) differs from a fresh parse of the same arguments' % (dd, a),
+                             a[0], 'history-dependent-compile')
             # --- pickle / copy / deepcopy
             base_sel = [id(x) for x in c.select(doc)] if monitors.guarded_call(c.select, doc)[0] == 'ok' else None
             for name, f in (('pickle', lambda o: pickle.loads(pickle.dumps(o))), ('copy', copy.copy), ('deepcopy', copy.deepcopy),
@@ -289,9 +303,11 @@ def run_unit(u):
             nkeys = rng.choice([40, 520, 700, 900])
             keys = []
             for i in range(nkeys):
-                keys.append(('p.k%d%s' % (i, rng.choice(['', ' > b', ':--x'])), rng.choice(NSS), None, 0))
+                keys.append(('p.k%d%s' % (i, rng.choice(['', ' > b', ':--x', ' :--y'])), rng.choice(NSS), None, 0))
                 if keys[-1][0].endswith(':--x'):
                     keys[-1] = (keys[-1][0], keys[-1][1], rng.choice(CUSTOMS[2:]), 0)
+                elif keys[-1][0].endswith(':--y'):
+                    keys[-1] = (keys[-1][0], keys[-1][1], rng.choice([c for c in CUSTOMS if c and ':--y' in c]), 0)
             ledger = {}
             order = []
             nops = rng.randint(600, 1500)
